@@ -4,7 +4,10 @@
 // allows 128, and the repository never closes the htpasswd watcher).
 package vfsnotify
 
-import "sync"
+import (
+	"sync"
+	"time"
+)
 
 // Op mirrors fsnotify.Op.
 type Op uint32
@@ -100,4 +103,29 @@ func (w *Watcher) Close() error {
 	defer w.mu.Unlock()
 	w.closed = true
 	return nil
+}
+
+// Last returns the most recently created watcher (the one the code under test created in the call
+// the harness has just made), or nil.
+func Last() *Watcher {
+	regMu.Lock()
+	defer regMu.Unlock()
+	if len(watchers) == 0 {
+		return nil
+	}
+	return watchers[len(watchers)-1]
+}
+
+// Deliver hands one event to whoever receives from Events and returns once it has been taken
+// (the channel is unbuffered, as fsnotify's is by default). It reports false if nobody took the
+// event within the given number of seconds: the consumer is gone or stuck.
+func (w *Watcher) Deliver(ev Event, seconds int) bool {
+	t := time.NewTimer(time.Duration(seconds) * time.Second)
+	defer t.Stop()
+	select {
+	case w.Events <- ev:
+		return true
+	case <-t.C:
+		return false
+	}
 }
